@@ -300,7 +300,7 @@ class Forest(WeightedGraph):
                 if self.parents[i] != i:
                     depth[self.parents[i]] = np.maximum(depth[i] + 1,\
                                            depth[self.parents[i]])
-            if dc.max() == depth.max():
+            if (dc == depth).all():
                 break
         return depth
 
